@@ -31,7 +31,7 @@ ASSUMPTIONS = [
 def budget(tier):
     if tier == 'thorough':
         return {'seeds': 60000, 'wall': 840, 'chunk': 200}
-    return {'seeds': 2400, 'wall': 100, 'chunk': 40}
+    return {'seeds': 10000, 'wall': 150, 'chunk': 50}
 
 
 def _gen_call(ctx, rng, depth=0):
@@ -291,7 +291,8 @@ def run_seed(seed, tier):
     except SimBudgetExceeded:
         return {'runs': 1, 'stats': {'budget_exceeded': 1}, 'shapes': [], 'violations': []}
     out = {'runs': 1, 'events': r['events'], 'lines': r['lines'], 'stats': r['stats'],
-           'shapes': [r['shape']] if r['nontrivial'] else [], 'violations': [], 'harness_errors': []}
+           'shapes': [r['shape']] if r['nontrivial'] else [], 'violations': [], 'harness_errors': [],
+           'trace_digests': [r['digest']]}
     case.pop('_nested_cache', None)
     # determinism self-check: replaying the recorded decisions reproduces the digest
     if seed % 7 == 0 or r['violations']:
